@@ -421,6 +421,12 @@ theorem firstIdx_eq_length_iff (es : List Econf.Entry) (g k : List UInt8) :
       rw [hd] at this; exact absurd this (by simp)
     · omega
 
+theorem selBy_length_mono (p : Econf.Entry → Bool) (es : List Econf.Entry) {i n : Nat} (h : i ≤ n) : (selBy p es i).length ≤ (selBy p es n).length := by
+  obtain ⟨d, rfl⟩ : ∃ d, n = i + d := ⟨n - i, by omega⟩
+  unfold selBy
+  rw [List.range_add, List.filter_append, List.filterMap_append, List.length_append]
+  omega
+
 /-- which entries of the override the inner loop of `merge_existing_groups` copies for group `g` -/
 def mnP (us : List Econf.Entry) (g : List UInt8) (e : Econf.Entry) : Bool := e.group == g && !Econf.defines us g e.key
 
@@ -439,7 +445,6 @@ structure MnCtx (m0 : Mem) (bk bl0 fa cell bu bua be bea bg : Nat) (us es : List
   usr : SrcMem m0 bu bua us [bk, bl0, fa]
   grp : m0.cstr bg 0 = .ok g
   grpav : bg ∉ [bk, bl0, fa]
-  room : cnt0 + es.length ≤ cap
   small : (gl0len : Int) + es.length + 2 < 2147483648
   usmall : (us.length : Int) + 1 < 18446744073709551616
   ssmall : (cnt0 : Int) + es.length + 1 < 18446744073709551616
@@ -458,10 +463,10 @@ def mnBody : Stmt := .ite (.un .lnot (.call "strcmp" (.cons (.load (.slot (meEtc
 theorem meNewKeys_shape : meNewKeys = .for (some mnTest) (some (.incdec (.var 10) true true .u64)) mnBody := rfl
 
 /-- the state of the inner loop before round `j` -/
-def MnInv (m0 : Mem) (bk bl0 fa cell bu be bg : Nat) (names0 : List (List UInt8)) (gl0len cap cnt0 : Nat) (ablk0 : Block) (start i : Nat) (v8 v9 v11 : Val)
-    (sel : List Econf.Entry) (j : Nat) (st : St) : Prop :=
+def MnInv (m0 : Mem) (bk bl0 fa cell bu be bg : Nat) (names0 : List (List UInt8)) (gl0len cap cnt0 astart : Nat) (pre : List Econf.Entry) (ablk0 : Block)
+    (start i : Nat) (v8 v9 v11 : Val) (sel : List Econf.Entry) (j : Nat) (st : St) : Prop :=
   (∃ v12 v13 v14, st.loc = meLoc bk cell bu be start (cnt0 + sel.length) i bg v8 v9 j v11 v12 v13 v14) ∧
-  ArrInv m0 bk bl0 fa names0 gl0len cap cnt0 ablk0 sel st.mem
+  ArrInv m0 bk bl0 fa names0 gl0len cap astart ablk0 (pre ++ sel) st.mem
 
 /-- `j++` (variable 10 of fifteen) -/
 theorem mn_step (mm : Mem) (a0 a1 a2 a3 a4 a5 a6 a7 a8 a9 a11 a12 a13 a14 : Val) (j : Nat) (hj : (j : Int) + 1 < 18446744073709551616) :
@@ -478,12 +483,14 @@ theorem mn_idx (mm : Mem) (a0 a1 a2 a3 a4 a6 a7 a8 a9 a10 a11 a12 a13 a14 : Val)
   simp [evalE, evalL, readPlace, writePlace, binop, cmpInt, arith, Ty.signed, convert, this, bind, Except.bind, Except.map]
 
 theorem mn_round {m0 : Mem} {bk bl0 fa cell bu bua be bea bg : Nat} {us es : List Econf.Entry} {g : List UInt8} {names0 : List (List UInt8)} {gl0len cap cnt0 : Nat}
-    {ablk0 : Block} {start i : Nat} {v8 v9 v11 : Val}
-    (C : MnCtx m0 bk bl0 fa cell bu bua be bea bg us es g gl0len cap cnt0) (fuel : Nat) (hf : gl0len + es.length + us.length + 2 < fuel)
-    (j : Nat) (hj : j < es.length) (st : St) (h : MnInv m0 bk bl0 fa cell bu be bg names0 gl0len cap cnt0 ablk0 start i v8 v9 v11 (selBy (mnP us g) es j) j st) :
+    {ablk0 : Block} {start i : Nat} {v8 v9 v11 : Val} {astart : Nat} {pre : List Econf.Entry}
+    (C : MnCtx m0 bk bl0 fa cell bu bua be bea bg us es g gl0len cap cnt0) (hcnt : cnt0 = astart + pre.length)
+    (hpsmall : (gl0len : Int) + pre.length + es.length + 2 < 2147483648)
+    (hroomT : astart + pre.length + (selBy (mnP us g) es es.length).length ≤ cap) (fuel : Nat) (hf : gl0len + pre.length + es.length + us.length + 2 < fuel)
+    (j : Nat) (hj : j < es.length) (st : St) (h : MnInv m0 bk bl0 fa cell bu be bg names0 gl0len cap cnt0 astart pre ablk0 start i v8 v9 v11 (selBy (mnP us g) es j) j st) :
     ∃ T Q st', testOf (some mnTest) st = .ok (true, T) ∧ (exec fuel mnBody T = .normal Q ∨ exec fuel mnBody T = .cont Q) ∧
       stepOf (some (.incdec (.var 10) true true .u64)) Q = .ok st' ∧
-      MnInv m0 bk bl0 fa cell bu be bg names0 gl0len cap cnt0 ablk0 start i v8 v9 v11 (selBy (mnP us g) es (j + 1)) (j + 1) st' := by
+      MnInv m0 bk bl0 fa cell bu be bg names0 gl0len cap cnt0 astart pre ablk0 start i v8 v9 v11 (selBy (mnP us g) es (j + 1)) (j + 1) st' := by
   obtain ⟨⟨v12, v13, v14, hloc⟩, hA⟩ := h
   obtain ⟨mem, loc⟩ := st
   simp only at hloc hA; subst hloc
@@ -501,7 +508,7 @@ theorem mn_round {m0 : Mem} {bk bl0 fa cell bu bua be bea bg : Nat} {us es : Lis
   have hw0 : wrapTo .i32 0 = 0 := by decide
   have hw1 : wrapTo .i32 1 = 1 := by decide
   have keep : ∀ (w12 w13 w14 : Val), (mnP us g es[j] && (firstIdx (entsOf es) (es[j]).group (es[j]).key == j)) = false →
-      MnInv m0 bk bl0 fa cell bu be bg names0 gl0len cap cnt0 ablk0 start i v8 v9 v11 (selBy (mnP us g) es (j + 1)) (j + 1)
+      MnInv m0 bk bl0 fa cell bu be bg names0 gl0len cap cnt0 astart pre ablk0 start i v8 v9 v11 (selBy (mnP us g) es (j + 1)) (j + 1)
         { mem := mem, loc := meLoc bk cell bu be start (cnt0 + (selBy (mnP us g) es j).length) i bg v8 v9 (j + 1) v11 w12 w13 w14 } := by
     intro w12 w13 w14 hsel
     rw [selBy_succ _ es j hj, hsel]
@@ -570,9 +577,17 @@ theorem mn_round {m0 : Mem} {bk bl0 fa cell bu bua be bea bg : Nat} {us es : Lis
             .ok (.int ((cnt0 + (selBy (mnP us g) es j).length : Nat) : Int), { mem := mm, loc := meLoc bk cell bu be start (cnt0 + (selBy (mnP us g) es j).length + 1) i bg v8 v9 j v11 (.ptr mem.length 0) (.int ((firstIdx (entsOf us) g (es[j]).key) : Int)) (.int 1) }) := fun mm => by
           simpa [meLoc] using mn_idx mm (.ptr bk 0) (.ptr cell 0) (.ptr bu 0) (.ptr be 0) (.int (start : Int)) (.int (i : Int)) (.ptr bg 0) v8 v9 (.int (j : Int)) v11
             (.ptr mem.length 0) (.int ((firstIdx (entsOf us) g (es[j]).key) : Int)) (.int 1) (cnt0 + (selBy (mnP us g) es j).length) (by omega)
-        have hroom := C.room
+        have hroom : (selBy (mnP us g) es j).length + 1 ≤ (selBy (mnP us g) es es.length).length := by
+          have h1 := selBy_length_mono (mnP us g) es (i := j + 1) (n := es.length) (by omega)
+          rw [selBy_succ _ es j hj, hsel] at h1
+          simpa using h1
+        have hidx' : ∀ mm, evalE (.incdec (.var 5) true true .u64) { mem := mm, loc := List.set (meLoc bk cell bu be start (cnt0 + (selBy (mnP us g) es j).length) i bg v8 v9 j v11 v12 (.int ((firstIdx (entsOf us) g (es[j]).key) : Int)) (.int 1)) 12 (.ptr mem.length 0) } =
+            .ok (.int ((astart + (pre ++ selBy (mnP us g) es j).length : Nat) : Int), { mem := mm, loc := meLoc bk cell bu be start (cnt0 + (selBy (mnP us g) es j).length + 1) i bg v8 v9 j v11 (.ptr mem.length 0) (.int ((firstIdx (entsOf us) g (es[j]).key) : Int)) (.int 1) }) := fun mm => by
+          have e : astart + (pre ++ selBy (mnP us g) es j).length = cnt0 + (selBy (mnP us g) es j).length := by simp [hcnt]; omega
+          rw [e]; exact hidx mm
+        have hpl : (pre ++ selBy (mnP us g) es j).length = pre.length + (selBy (mnP us g) es j).length := List.length_append
         obtain ⟨m', hex, hA', hlen', _, _, _⟩ := hA.append C.arr bea (7 * j) es[j] (C.src.ents j hj) (meLoc bk cell bu be start (cnt0 + (selBy (mnP us g) es j).length) i bg v8 v9 j v11 v12 (.int ((firstIdx (entsOf us) g (es[j]).key) : Int)) (.int 1)) (meLoc bk cell bu be start (cnt0 + (selBy (mnP us g) es j).length + 1) i bg v8 v9 j v11 (.ptr mem.length 0) (.int ((firstIdx (entsOf us) g (es[j]).key) : Int)) (.int 1)) (meEtc 10) (.incdec (.var 5) true true .u64) 12
-          (by omega) (by omega) (C.lines _ (List.getElem_mem hj)) fuel (by omega) rfl rfl (by simp) (by decide) (by unfold meEtc; exact hsrc) hidx rfl
+          (by omega) (by omega) (C.lines _ (List.getElem_mem hj)) fuel (by omega) rfl rfl (by simp) (by decide) (by unfold meEtc; exact hsrc) hidx' rfl
         refine ⟨_, { mem := m', loc := meLoc bk cell bu be start (cnt0 + (selBy (mnP us g) es j).length + 1) i bg v8 v9 j v11 (.ptr mem.length 0) (.int ((firstIdx (entsOf us) g (es[j]).key) : Int)) (.int 1) }, _, htest, Or.inl ?_, mn_step m' _ _ _ _ _ _ _ _ _ _ _ _ _ _ j hsmallstep, ?_⟩
         · rw [hcT]; unfold mnInner1
           rw [exec_seq_normal hinl14, exec_ite_true ht14]; unfold mnInner2
@@ -580,7 +595,7 @@ theorem mn_round {m0 : Mem} {bk bl0 fa cell bu bua be bea bg : Nat} {us es : Lis
           exact hex
         · rw [selBy_succ _ es j hj, hsel]
           simp only [if_true]
-          exact ⟨⟨.ptr mem.length 0, .int ((firstIdx (entsOf us) g (es[j]).key) : Int), .int 1, by simp [meLoc]; omega⟩, hA'⟩
+          exact ⟨⟨.ptr mem.length 0, .int ((firstIdx (entsOf us) g (es[j]).key) : Int), .int 1, by simp [meLoc]; omega⟩, by rw [← List.append_assoc]; exact hA'⟩
       · -- the base defines this key in the group: its entry has taken the value already
         have hdt : Econf.defines us g (es[j]).key = true := by
           cases hd : Econf.defines us g (es[j]).key with
@@ -611,29 +626,26 @@ theorem mn_round {m0 : Mem} {bk bl0 fa cell bu bua be bea bg : Nat} {us es : Lis
     rw [exec_ite_false (by simpa [hg] using hcond)]; simp [exec]
 
 /-- the inner loop of `merge_existing_groups` that appends, behind the last entry of a group of the base, the keys of that group which only
-    the override defines: on the generated term, from any state of the array (`ArrInv … [] mem`: `cnt0` entries so far), it appends exactly the
-    model's `newKeysOf us es g`, counts them into `merge_length`, adds nothing else to the group list than their group, and leaves the rest
-    of the caller's memory as it was -/
-theorem C_me_newkeys {m0 : Mem} {bk bl0 fa cell bu bua be bea bg : Nat} {us es : List Econf.Entry} {g : List UInt8} {names0 : List (List UInt8)} {gl0len cap cnt0 : Nat}
-    {ablk0 : Block} (start i : Nat) (v8 v9 v11 v12 v13 v14 : Val)
-    (C : MnCtx m0 bk bl0 fa cell bu bua be bea bg us es g gl0len cap cnt0) (fuel : Nat) (hf : gl0len + es.length + us.length + 2 < fuel)
-    (mem : Mem) (h : ArrInv m0 bk bl0 fa names0 gl0len cap cnt0 ablk0 [] mem) :
+    the override defines: on the generated term, from any state of the array (`astart` entries before, then `pre`), it appends the copies of
+    exactly the entries the model selects (`selBy (mnP us g)`), counts them into `merge_length` and keeps the invariant of the array -/
+theorem me_newkeys_inv {m0 : Mem} {bk bl0 fa cell bu bua be bea bg : Nat} {us es : List Econf.Entry} {g : List UInt8} {names0 : List (List UInt8)} {gl0len cap cnt0 : Nat}
+    {ablk0 : Block} {astart : Nat} {pre : List Econf.Entry} (start i : Nat) (v8 v9 v11 v12 v13 v14 : Val)
+    (C : MnCtx m0 bk bl0 fa cell bu bua be bea bg us es g gl0len cap cnt0) (hcnt : cnt0 = astart + pre.length)
+    (hpsmall : (gl0len : Int) + pre.length + es.length + 2 < 2147483648)
+    (hroomT : astart + pre.length + (selBy (mnP us g) es es.length).length ≤ cap) (fuel : Nat) (hf : gl0len + pre.length + es.length + us.length + 2 < fuel)
+    (mem : Mem) (h : ArrInv m0 bk bl0 fa names0 gl0len cap astart ablk0 pre mem) :
     ∃ mem' w12 w13 w14, exec fuel meNewKeys { mem := mem, loc := meLoc bk cell bu be start cnt0 i bg v8 v9 0 v11 v12 v13 v14 } =
-        .normal { mem := mem', loc := meLoc bk cell bu be start (cnt0 + (Econf.newKeysOf us es g).length) i bg v8 v9 es.length v11 w12 w13 w14 } ∧
-      (∃ bl' gl', GlMem mem' bk bl' gl' ∧
-        gl'.map (·.2) = ((Econf.newKeysOf us es g).map (·.group)).foldl Econf.addGroup names0 ∧
-        ∀ j (hj : j < (Econf.newKeysOf us es g).length), EntMem mem' fa (7 * (cnt0 + j)) ((Econf.newKeysOf us es g)[j]) [bk, bl']) ∧
-      (∃ ablk, mem'[fa]? = some ablk ∧ ablk.live = true ∧ ∀ k, k < 7 * cnt0 → ablk.slots[k]? = ablk0.slots[k]?) ∧
-      (∀ b, b < m0.length → b ∉ [bk, bl0, fa] → mem'[b]? = m0[b]?) := by
+        .normal { mem := mem', loc := meLoc bk cell bu be start (cnt0 + (selBy (mnP us g) es es.length).length) i bg v8 v9 es.length v11 w12 w13 w14 } ∧
+      ArrInv m0 bk bl0 fa names0 gl0len cap astart ablk0 (pre ++ selBy (mnP us g) es es.length) mem' := by
   have hsel0 : selBy (mnP us g) es 0 = [] := by simp [selBy]
-  have h0 : MnInv m0 bk bl0 fa cell bu be bg names0 gl0len cap cnt0 ablk0 start i v8 v9 v11 (selBy (mnP us g) es 0) 0
+  have h0 : MnInv m0 bk bl0 fa cell bu be bg names0 gl0len cap cnt0 astart pre ablk0 start i v8 v9 v11 (selBy (mnP us g) es 0) 0
       { mem := mem, loc := meLoc bk cell bu be start cnt0 i bg v8 v9 0 v11 v12 v13 v14 } := by
-    rw [hsel0]; exact ⟨⟨v12, v13, v14, by simp⟩, h⟩
+    rw [hsel0]; exact ⟨⟨v12, v13, v14, by simp⟩, by simpa using h⟩
   rw [meNewKeys_shape, exec_for]
   obtain ⟨R, hloop, ⟨w12, w13, w14, hlocR⟩, hAR⟩ := loop_inv _ _ _
-    (fun st => MnInv m0 bk bl0 fa cell bu be bg names0 gl0len cap cnt0 ablk0 start i v8 v9 v11 (selBy (mnP us g) es es.length) es.length st) es.length
-    (fun j st => MnInv m0 bk bl0 fa cell bu be bg names0 gl0len cap cnt0 ablk0 start i v8 v9 v11 (selBy (mnP us g) es j) j st)
-    (fun j st hj hinv => mn_round C fuel hf j hj st hinv)
+    (fun st => MnInv m0 bk bl0 fa cell bu be bg names0 gl0len cap cnt0 astart pre ablk0 start i v8 v9 v11 (selBy (mnP us g) es es.length) es.length st) es.length
+    (fun j st => MnInv m0 bk bl0 fa cell bu be bg names0 gl0len cap cnt0 astart pre ablk0 start i v8 v9 v11 (selBy (mnP us g) es j) j st)
+    (fun j st hj hinv => mn_round C hcnt hpsmall hroomT fuel hf j hj st hinv)
     (fun st hinv => by
       obtain ⟨⟨x12, x13, x14, hloc⟩, hA⟩ := hinv
       obtain ⟨mm, loc⟩ := st
@@ -645,6 +657,24 @@ theorem C_me_newkeys {m0 : Mem} {bk bl0 fa cell bu bua be bea bg : Nat} {us es :
     _ fuel h0 (by omega)
   obtain ⟨memR, locR⟩ := R
   simp only at hlocR hAR; subst hlocR
+  exact ⟨memR, w12, w13, w14, hloop, hAR⟩
+
+/-- … from an array with `cnt0` entries: exactly the model's `newKeysOf us es g` is appended -/
+theorem C_me_newkeys {m0 : Mem} {bk bl0 fa cell bu bua be bea bg : Nat} {us es : List Econf.Entry} {g : List UInt8} {names0 : List (List UInt8)} {gl0len cap cnt0 : Nat}
+    {ablk0 : Block} (start i : Nat) (v8 v9 v11 v12 v13 v14 : Val)
+    (C : MnCtx m0 bk bl0 fa cell bu bua be bea bg us es g gl0len cap cnt0) (hroom : cnt0 + es.length ≤ cap) (fuel : Nat) (hf : gl0len + es.length + us.length + 2 < fuel)
+    (mem : Mem) (h : ArrInv m0 bk bl0 fa names0 gl0len cap cnt0 ablk0 [] mem) :
+    ∃ mem' w12 w13 w14, exec fuel meNewKeys { mem := mem, loc := meLoc bk cell bu be start cnt0 i bg v8 v9 0 v11 v12 v13 v14 } =
+        .normal { mem := mem', loc := meLoc bk cell bu be start (cnt0 + (Econf.newKeysOf us es g).length) i bg v8 v9 es.length v11 w12 w13 w14 } ∧
+      (∃ bl' gl', GlMem mem' bk bl' gl' ∧
+        gl'.map (·.2) = ((Econf.newKeysOf us es g).map (·.group)).foldl Econf.addGroup names0 ∧
+        ∀ j (hj : j < (Econf.newKeysOf us es g).length), EntMem mem' fa (7 * (cnt0 + j)) ((Econf.newKeysOf us es g)[j]) [bk, bl']) ∧
+      (∃ ablk, mem'[fa]? = some ablk ∧ ablk.live = true ∧ ∀ k, k < 7 * cnt0 → ablk.slots[k]? = ablk0.slots[k]?) ∧
+      (∀ b, b < m0.length → b ∉ [bk, bl0, fa] → mem'[b]? = m0[b]?) := by
+  have hsm := C.small
+  obtain ⟨memR, w12, w13, w14, hloop, hAR⟩ := me_newkeys_inv (astart := cnt0) (pre := []) start i v8 v9 v11 v12 v13 v14 C (by simp) (by simpa using hsm)
+    (by have := selBy_length_le (mnP us g) es es.length; simp; omega) fuel (by simpa using hf) mem h
+  simp only [List.nil_append] at hAR
   have hm := mnSel_model us es g
   have hlen : (Econf.newKeysOf us es g).length = (selBy (mnP us g) es es.length).length := by rw [← hm]; simp
   have hgrp : (Econf.newKeysOf us es g).map (·.group) = (selBy (mnP us g) es es.length).map (·.group) := by
